@@ -96,7 +96,10 @@ use serde_json::{
 };
 use std::{
     cell::Cell,
-    collections::BTreeSet,
+    collections::{
+        BTreeMap,
+        BTreeSet,
+    },
     convert::Infallible,
 };
 
@@ -587,6 +590,8 @@ struct Run<'e> {
     /// last successfully installed versions (for the generator's block progress)
     last_cp_installed: Option<u32>,
     last_st_installed: Option<u32>,
+    /// subsections the implementation accepted so far, per root (in acceptance order)
+    accepted_parts: BTreeMap<H, Vec<Vec<u8>>>,
 }
 
 fn reason_class(e: &IErr) -> String {
@@ -630,6 +635,7 @@ impl<'e> Run<'e> {
             dead: false,
             last_cp_installed: None,
             last_st_installed: None,
+            accepted_parts: BTreeMap::new(),
         }
     }
 
@@ -807,6 +813,23 @@ impl<'e> Run<'e> {
             self.dead = true;
             return;
         };
+        // "complete exactly when the last subsection arrives, holding the concatenation of all
+        // parts": a completed entry must be the bytecode whose Merkle root it is stored under
+        if let (Ok(()), Op::Upload { root, part, .. }) = (&res, &op) {
+            let parts = self.accepted_parts.entry(*root).or_default();
+            parts.push(part.clone());
+            if matches!(after.uploads.get(root), Some(UploadEntry::Completed(_))) {
+                rep.count("completed_entries_checked_against_their_root");
+                let refs: Vec<&[u8]> = parts.iter().map(|p| p.as_slice()).collect();
+                if tables::bytecode_root(&refs) != *root {
+                    let got = parts.len();
+                    self.flag(
+                        format!("C35|Upload|completed entry is not the bytecode of its root (accepted with an aliased subsections_number)"),
+                        format!("transaction #{n} completed root {} after {got} accepted subsections, but the Merkle root over the accepted subsections differs from the root: a later subsection was accepted under another (index, subsections_number) reading of its audit path ({situation})", hx(root)),
+                    );
+                }
+            }
+        }
         let verdict_s = if verdict.is_ok() { "accept" } else { "reject" };
         let target = match &op {
             Op::Upload { root, .. } => Some(*root),
@@ -1034,6 +1057,27 @@ fn gen_upload(rng: &mut Rng, run: &Run, p: &Pools) -> Op {
             _ => rng.below(number),
         },
     };
+    // aliasing: a later subsection whose audit path also verifies as (next, next+k) of a
+    // smaller tree (e.g. the last of 3 or 5 subsections read as index 1 of 2)
+    if let Some(nx) = next {
+        if rng.chance(1, 6) {
+            let mut cands = vec![];
+            for l in (nx + 1)..number {
+                let s = &bc.parts[l as usize];
+                let proof: Vec<H> = s.proof_set.iter().map(|b| **b).collect();
+                for num2 in (nx + 1)..number {
+                    if rfc6962::verify(&bc.root, &s.subsection, &proof, nx, num2) {
+                        cands.push((l, num2));
+                    }
+                }
+            }
+            if !cands.is_empty() {
+                let (l, num2) = *rng.pick(&cands);
+                let s = &bc.parts[l as usize];
+                return Op::Upload { root: bc.root, index: nx as u16, number: num2 as u16, proof: s.proof_set.iter().map(|b| **b).collect(), part: s.subsection.clone(), how: gen_how(rng) };
+            }
+        }
+    }
     let s = &bc.parts[index as usize];
     let mut op_root = *s.root;
     let mut op_index = s.subsection_index;
